@@ -7,6 +7,7 @@ func emitAll(repo string) {
 	t := loadTree(repo)
 	emitFs(t)
 	emitFatal(t)
+	emitListIdx(t) // listidx.go: listIndexSites (C18)
 	// determinism area (C08, C07): genstate.go, mapsites.go
 	emitGenState(repo)
 	emitMapSites(repo)
